@@ -71,6 +71,16 @@ func c18pPipeline(sc c18pScenario) (*msgpipeline.MsgPipeline, error) {
 		nodes = []config.Node{{Name: "destination", Args: []string{"example.org"}, Children: []config.Node{
 			{Name: "reroute", Children: []config.Node{mod, deliver}}}},
 			{Name: "default_destination", Children: []config.Node{deliver}}}
+	case "two-stage":
+		// the outer pipeline rewrites the client's address to an intermediate one, the nested pipeline rewrites that to the final one
+		var first, second []config.Node
+		for _, k := range keys {
+			first = append(first, config.Node{Name: "entry", Args: []string{k, "mid-" + k}})
+			second = append(second, config.Node{Name: "entry", Args: []string{"mid-" + k, sc.Rewrites[k]}})
+		}
+		m1 := config.Node{Name: "modify", Children: []config.Node{{Name: "replace_rcpt", Args: []string{"static"}, Children: first}}}
+		m2 := config.Node{Name: "modify", Children: []config.Node{{Name: "replace_rcpt", Args: []string{"static"}, Children: second}}}
+		nodes = []config.Node{m1, {Name: "reroute", Children: []config.Node{m2, deliver}}}
 	case "outer-then-reroute":
 		// the outer pipeline rewrites, a nested one delivers (its Start runs inside the outer AddRcpt)
 		nodes = []config.Node{mod, {Name: "reroute", Children: []config.Node{deliver}}}
@@ -131,13 +141,27 @@ func c18pRun(sc c18pScenario) (vs []ev.V) {
 				isClient = true // a chain: the image is an address the sender used as well
 			}
 		}
+		if sc.Level == "two-stage" && e != c && named["mid-"+strings.ToLower(c)] > 0 {
+			vs = append(vs, ev.Vf("pipeline-report:names-intermediate-address", "the report names mid-%s, the address %s was rewritten to on its way to %s; the sender wrote %v; reports name %v", c, c, e, sc.Rcpts, got))
+		}
 		if e != c && !isClient && named[strings.ToLower(e)] > 0 {
 			vs = append(vs, ev.Vf("pipeline-report:names-rewritten-address:"+sc.Level, "the report names %s, the address %s was rewritten to; the sender wrote %v; reports name %v", e, c, sc.Rcpts, got))
 		}
 	}
 	for _, c := range sc.Rcpts {
 		if named[strings.ToLower(c)] != 1 {
-			vs = append(vs, ev.Vf("pipeline-report:sender-address-missing:"+sc.Level, "the sender's recipient %s (rewritten to %q) is named %d times in the failure reports, which name %v", c, sc.Rewrites[c], named[strings.ToLower(c)], got))
+			shape := sc.Level
+			sharing := 0
+			for _, c2 := range sc.Rcpts {
+				if sc.Rewrites[c2] != "" && sc.Rewrites[c2] == sc.Rewrites[c] {
+					sharing++
+				}
+			}
+			if sharing >= 2 && named[strings.ToLower(c)] == 0 {
+				// KNOWN_FINDINGS C18: MsgMetadata.OriginalRcpts holds one original per address
+				shape = "two-recipients-rewritten-to-one-address"
+			}
+			vs = append(vs, ev.Vf("pipeline-report:sender-address-missing:"+shape, "the sender's recipient %s (rewritten to %q) is named %d times in the failure reports, which name %v", c, sc.Rewrites[c], named[strings.ToLower(c)], got))
 		}
 	}
 	return vs
@@ -147,7 +171,7 @@ func TestVerifC18Pipeline(t *testing.T) {
 	qT = t
 	r := ev.Get("C18")
 	ev.Run(t, r, ev.Spec[c18pScenario]{Name: "through-a-pipeline", N: r.Scale(1, 8, 50), Gen: func(t *rapid.T) c18pScenario {
-		sc := c18pScenario{Level: rapid.SampledFrom([]string{"global", "destination", "reroute", "outer-then-reroute", "chain"}).Draw(t, "level"), Rewrites: map[string]string{}, UTF8: rapid.Bool().Draw(t, "utf8")}
+		sc := c18pScenario{Level: rapid.SampledFrom([]string{"global", "destination", "reroute", "outer-then-reroute", "chain", "two-stage", "shared-image"}).Draw(t, "level"), Rewrites: map[string]string{}, UTF8: rapid.Bool().Draw(t, "utf8")}
 		idx := rapid.SliceOfNDistinct(rapid.IntRange(0, len(c18pClients)-1), 1, 3, rapid.ID[int]).Draw(t, "rcpts")
 		next := 0
 		for _, i := range idx {
@@ -156,6 +180,11 @@ func TestVerifC18Pipeline(t *testing.T) {
 				sc.Rewrites[c18pClients[i]] = c18pReal[next]
 				next++
 			}
+		}
+		if sc.Level == "shared-image" && len(sc.Rcpts) >= 2 {
+			// two addresses of the sender's message are aliases of one mailbox
+			sc.Rewrites[sc.Rcpts[0]] = c18pReal[0]
+			sc.Rewrites[sc.Rcpts[1]] = c18pReal[0]
 		}
 		if sc.Level == "chain" && len(sc.Rcpts) >= 2 {
 			// the first recipient is rewritten to the second one, which the client names as well and which is rewritten further
